@@ -42,10 +42,10 @@ class Builder:
     def comb(self, which=None):
         rnd = self.rnd; c = self.ints()
         if not c: return None
-        n = rnd.randint(1, min(3, len(c)))
+        n = rnd.randint(1, min(4, len(c)))
         ps = rnd.sample(c, n)
-        which = which or rnd.choice(['all', 'any'])
-        self.ops.append('%s %s' % (which, ','.join(map(str, ps)))); self.types.append('tuple' if which == 'all' else 'any'); return self.nid() - 1
+        which = which or rnd.choice(['all', 'any', 'allr'])
+        self.ops.append('%s %s' % (which, ','.join(map(str, ps)))); self.types.append('any' if which == 'any' else 'tuple'); return self.nid() - 1
     def settle(self, again=False):
         rnd = self.rnd
         c = [p for p in self.settlable if again or p not in self.settled]
@@ -56,6 +56,10 @@ class Builder:
     def line(self): return 'prog ' + ' ; '.join(self.ops)
 
 STRESS = [
+ 'prog new ; new ; new ; allr 0,1,2 ; then 3 1 val:0 rth ; resolve 2 1 ; resolve 0 2 ; resolve 1 3',
+ 'prog new ; new ; new ; new ; all 0,1,2,3 ; then 4 1 val:0 rth ; resolve 3 1 ; resolve 1 2 ; resolve 0 3 ; resolve 2 4',
+ 'prog new ; new ; allr 0,1 ; then 2 1 val:0 cus:8 ; reject 1 3 ; resolve 0 7 ; reject 0 2',
+ 'prog new ; new ; new ; new ; any 0,1,2,3 ; then 4 1 val:0 cus:8 ; resolve 3 3 ; reject 1 7 ; resolve 0 1',
  'prog new ; then 0 1 val:1 rth ; then 1 2 val:10 cus:9 ; resolve 0 5 ; resolve 0 6',
  'prog new ; new ; any 0,1 ; then 2 1 val:0 cus:8 ; resolve 0 3 ; reject 1 7',
  'prog new ; new ; any 0,1 ; then 2 1 val:0 cus:8 ; reject 0 3 ; reject 1 7 ; then 1 5 val:0 cus:6',
@@ -124,10 +128,43 @@ def oracle(line, out):
             if o == 'T' and p not in settled:
                 return ('late-throw', 'settling the pending promise %d raised an error in the settling party (op "%s"): %s' % (p, op, out[:160]))
             if o != 'T': settled.add(p)
-        elif o == 'T' and w[0] in ('then', 'all', 'any'):
+        elif o == 'T' and w[0] in ('then', 'all', 'any', 'allr'):
             return ('late-throw', 'attaching "%s" raised an error: %s' % (op, out[:160]))
         elif o == 'X':
             return ('exception', 'unexpected exception class in op "%s"' % op)
+    # all-of over promises the program settles itself: fulfils with all values in ARGUMENT order once every input has fulfilled,
+    # rejects (no fulfilment continuation) when one was rejected
+    slots = []; first = {}
+    for op, o in zip(ops, outs):
+        w = op.split()
+        if w[0] in ('new', 'res', 'rej', 'then', 'all', 'any', 'allr'): slots.append(w)
+        elif w[0] in ('resolve', 'reject') and o != 'T': first.setdefault(int(w[1]), (w[0], int(w[2])))
+    def outcome(i):
+        w = slots[i]
+        if w[0] == 'res': return ('resolve', int(w[1]))
+        if w[0] == 'rej': return ('reject', int(w[1]))
+        if w[0] == 'new': return first.get(i)
+        return 'derived'
+    ran = {}
+    for e in log:
+        mm = re.fullmatch(r'c(\d+)\((-?\d+)\)', e)
+        if mm: ran[int(mm.group(1))] = int(mm.group(2))
+    if 'T' not in outs:
+        for w in slots:
+            if w[0] != 'then': continue
+            p = int(w[1]); cb = int(w[2])
+            if p >= len(slots) or slots[p][0] not in ('all', 'allr'): continue
+            ins = [outcome(int(x)) for x in slots[p][1].split(',')]
+            if any(x == 'derived' for x in ins): continue
+            if any(x is not None and x[0] == 'reject' for x in ins):
+                # rejected as soon as the first rejection arrives: a fulfilment continuation must never run ... unless every input had fulfilled before
+                continue
+            if all(x is not None and x[0] == 'resolve' for x in ins):
+                want = sum(x[1] * 100 ** k for k, x in enumerate(ins))
+                if cb not in ran: return ('all-missing', 'all-of over %s: every input fulfilled but continuation c%d never ran: %s' % (slots[p][1], cb, m.group(2)))
+                if ran[cb] != want: return ('all-order', 'all-of over %s (%s): continuation c%d got the encoded values %d, argument order gives %d' % (slots[p][1], slots[p][0], cb, ran[cb], want))
+            elif cb in ran:
+                return ('all-early', 'all-of over %s: continuation c%d ran although not every input has fulfilled' % (slots[p][1], cb))
     return None
 
 def classify(line, out):
@@ -136,7 +173,7 @@ def classify(line, out):
     return (sig, out.split(' | ')[2] if ' | ' in out else out[:10])
 
 RULE = ('well-typed programs over the promise API: 1..3 initial promises (pending/resolved/rejected), then 1..12 operations drawn from then (value/void/promise-returning x rethrow/ignore/custom handler), '
-        'whenAll/whenAny over 1..3 inputs, resolve/reject (incl. double settlement), attached before or after settlement; plus a stress list. non-trivial = distinct (operation signature, final states)')
+        'whenAll (variadic and iterator-range) / whenAny over 1..4 inputs, resolve/reject (incl. double settlement), attached before or after settlement; plus a stress list. non-trivial = distinct (operation signature, final states)')
 ASSUME = ['single-threaded (cross-thread interleavings are C12)', 'callbacks do not throw', 'a promise returned by a promise-returning callback is used for nothing else',
           'whenAll values are compared through an order-sensitive encoding (sum of v_i * 100^i)']
 
